@@ -84,7 +84,7 @@ _RE_STATES = re.compile(r"(\d+) states generated, (\d+) distinct states found")
 _RE_DEPTH = re.compile(r"The depth of the complete state graph search is (\d+)")
 _RE_INV = re.compile(r"Invariant (\S+) is violated")
 _RE_PROP = re.compile(r"(Temporal properties were violated|Action property (\S+) is violated|"
-                      r"Action property line .* is violated)")
+                      r"Action property line .* is violated|Temporal property (\S+) was violated)")
 _RE_COV = re.compile(r"^<(\w+) line (\d+), col (\d+) to line (\d+), col (\d+) of module (\w+)>: (\d+):(\d+)")
 
 
@@ -153,7 +153,7 @@ def tlc(module, cfg=None, *, workers=4, timeout=600, simulate=None, depth=None,
                     r.violated = m.group(1)
                 m = _RE_PROP.search(line)
                 if m and r.violated is None:
-                    r.violated = m.group(2) or "temporal"
+                    r.violated = m.group(2) or m.group(3) or "temporal"
                 m = _RE_COV.match(line)
                 if m:
                     name = m.group(1)
